@@ -1,4 +1,334 @@
 package x86ref
 
-// encoderSelfCheck is extended in encode_forms.go; placeholder until the encoder exists.
-var encoderSelfCheck = func(mode int) (int, string) { return 0, "" }
+import "fmt"
+
+// Reference ENCODER: enumerates valid encodings of a canonical instruction (enough of them to
+// contain a shortest one). Used for C18's minimum length and for the decoder self-check only.
+
+func imm(v int64, n int) []byte {
+	b := make([]byte, n)
+	for i := 0; i < n; i++ {
+		b[i] = byte(uint64(v) >> (8 * uint(i)))
+	}
+	return b
+}
+
+func fitsS8(v int64, width int) bool {
+	mask := int64(1)<<uint(width) - 1
+	lo := v & 0xff
+	se := lo
+	if lo&0x80 != 0 {
+		se = lo | ^int64(0xff)
+	}
+	return se&mask == v&mask
+}
+
+// encodeMem returns the candidate ModRM(+SIB+disp) encodings of m with the given reg field,
+// or nil if the address is not encodable.
+func encodeMem(m MemSpec, reg int) [][]byte {
+	var out [][]byte
+	d := m.Disp
+	if m.AddrSize == 16 {
+		rm := -1
+		key := m.Base + "+" + m.Index
+		switch key {
+		case "BX+SI", "SI+BX":
+			rm = 0
+		case "BX+DI", "DI+BX":
+			rm = 1
+		case "BP+SI", "SI+BP":
+			rm = 2
+		case "BP+DI", "DI+BP":
+			rm = 3
+		case "SI+", "+SI":
+			rm = 4
+		case "DI+", "+DI":
+			rm = 5
+		case "BP+", "+BP":
+			rm = 6
+		case "BX+", "+BX":
+			rm = 7
+		case "+":
+			return [][]byte{append([]byte{byte(reg<<3 | 6)}, imm(d, 2)...)}
+		}
+		if rm < 0 || (m.Index != "" && m.Scale > 1) {
+			return nil
+		}
+		d16 := int64(int16(d))
+		if d16 == 0 && rm != 6 {
+			out = append(out, []byte{byte(reg<<3 | rm)})
+		}
+		if d16 >= -128 && d16 <= 127 {
+			out = append(out, []byte{byte(0x40 | reg<<3 | rm), byte(d16)})
+		}
+		out = append(out, append([]byte{byte(0x80 | reg<<3 | rm)}, imm(d, 2)...))
+		return out
+	}
+	bn, in := -1, -1
+	if m.Base != "" {
+		n, sz, _ := RegInfo(m.Base)
+		if sz != 32 {
+			return nil
+		}
+		bn = n
+	}
+	sc := m.Scale
+	if m.Index != "" {
+		n, sz, _ := RegInfo(m.Index)
+		if sz != 32 {
+			return nil
+		}
+		in = n
+		if sc == 0 {
+			sc = 1
+		}
+		if in == 4 { // ESP cannot be an index; at scale 1 swap with the base
+			if sc != 1 || bn == 4 {
+				return nil
+			}
+			if bn < 0 {
+				bn, in = 4, -1
+			} else {
+				bn, in = in, bn
+			}
+		}
+	}
+	if bn < 0 && in < 0 {
+		return [][]byte{append([]byte{byte(reg<<3 | 5)}, imm(d, 4)...)}
+	}
+	scBits := map[int]int{0: 0, 1: 0, 2: 1, 4: 2, 8: 3}[sc]
+	d32 := int64(int32(d))
+	gen := func(bn, in int) {
+		needSIB := in >= 0 || bn == 4
+		if bn < 0 { // index only: SIB, mod=00, base=101, disp32
+			out = append(out, append([]byte{byte(reg<<3 | 4), byte(scBits<<6 | in<<3 | 5)}, imm(d, 4)...))
+			return
+		}
+		emit := func(mod int, disp []byte) {
+			var b []byte
+			if needSIB {
+				ix := 4
+				if in >= 0 {
+					ix = in
+				}
+				b = []byte{byte(mod<<6 | reg<<3 | 4), byte(scBits<<6 | ix<<3 | bn)}
+			} else {
+				b = []byte{byte(mod<<6 | reg<<3 | bn)}
+			}
+			out = append(out, append(b, disp...))
+		}
+		if d32 == 0 && bn != 5 {
+			emit(0, nil)
+		}
+		if d32 >= -128 && d32 <= 127 {
+			emit(1, []byte{byte(d32)})
+		}
+		emit(2, imm(d, 4))
+	}
+	gen(bn, in)
+	if in >= 0 && bn >= 0 && sc == 1 && bn != 4 {
+		gen(in, bn) // base/index interchangeable at scale 1
+	}
+	return out
+}
+
+func withPrefixes(body []byte, need66, need67 bool) []byte {
+	var p []byte
+	if need67 {
+		p = append(p, 0x67)
+	}
+	if need66 {
+		p = append(p, 0x66)
+	}
+	return append(p, body...)
+}
+
+var aluIndex = map[string]int{"ADD": 0, "OR": 1, "ADC": 2, "SBB": 3, "AND": 4, "SUB": 5, "XOR": 6, "CMP": 7}
+
+// Encodings enumerates valid encodings of w under mode for the instruction classes C18 judges
+// (ALU r/m,imm; ALU/MOV r/m,r and r,r/m; MOV r,imm; MOV r/m,imm; MOV acc<->moffs; PUSH/POP r).
+// It returns nil for anything else.
+func Encodings(w Want, mode int) [][]byte {
+	var out [][]byte
+	need66 := w.OpSize != 8 && w.OpSize != 0 && w.OpSize != mode
+	wbit := 1
+	if w.OpSize == 8 {
+		wbit = 0
+	}
+	ib := w.OpSize / 8
+	rmEnc := func(o WantOp, reg int) (encs [][]byte, need67 bool) {
+		if o.Kind == "reg" {
+			n, _, _ := RegInfo(o.Reg)
+			return [][]byte{{byte(0xC0 | reg<<3 | n)}}, false
+		}
+		return encodeMem(o.Mem, reg), o.Mem.AddrSize != mode
+	}
+	add := func(body []byte, need67 bool) { out = append(out, withPrefixes(body, need66, need67)) }
+	switch {
+	case len(w.Ops) == 2 && w.Ops[1].Kind == "imm" && (w.Ops[0].Kind == "reg" || w.Ops[0].Kind == "mem"):
+		iv := w.Ops[1].Imm
+		if n, ok := aluIndex[w.Op]; ok {
+			encs, n67 := rmEnc(w.Ops[0], n)
+			for _, e := range encs {
+				add(append(append([]byte{byte(0x80 | wbit)}, e...), imm(iv, ib)...), n67)
+				if wbit == 1 && fitsS8(iv, w.OpSize) {
+					add(append(append([]byte{0x83}, e...), byte(iv)), n67)
+				}
+			}
+			if w.Ops[0].Kind == "reg" {
+				if rn, _, _ := RegInfo(w.Ops[0].Reg); rn == 0 {
+					add(append([]byte{byte(n<<3 | 4 | wbit)}, imm(iv, ib)...), false)
+				}
+			}
+		} else if w.Op == "MOV" {
+			encs, n67 := rmEnc(w.Ops[0], 0)
+			for _, e := range encs {
+				add(append(append([]byte{byte(0xC6 | wbit)}, e...), imm(iv, ib)...), n67)
+			}
+			if w.Ops[0].Kind == "reg" {
+				rn, _, _ := RegInfo(w.Ops[0].Reg)
+				add(append([]byte{byte(0xB0 | wbit<<3 | rn)}, imm(iv, ib)...), false)
+			}
+		}
+	case len(w.Ops) == 2 && (w.Ops[0].Kind == "reg" || w.Ops[0].Kind == "mem") && (w.Ops[1].Kind == "reg" || w.Ops[1].Kind == "mem") && !(w.Ops[0].Kind == "mem" && w.Ops[1].Kind == "mem"):
+		var base int
+		if n, ok := aluIndex[w.Op]; ok {
+			base = n << 3
+		} else if w.Op == "MOV" {
+			base = 0x88
+		} else {
+			return nil
+		}
+		if w.Ops[1].Kind == "reg" { // r/m, r : opcode base+w
+			rn, _, _ := RegInfo(w.Ops[1].Reg)
+			encs, n67 := rmEnc(w.Ops[0], rn)
+			for _, e := range encs {
+				add(append([]byte{byte(base | wbit)}, e...), n67)
+			}
+		}
+		if w.Ops[0].Kind == "reg" { // r, r/m : opcode base+2+w
+			rn, _, _ := RegInfo(w.Ops[0].Reg)
+			encs, n67 := rmEnc(w.Ops[1], rn)
+			for _, e := range encs {
+				add(append([]byte{byte(base | 2 | wbit)}, e...), n67)
+			}
+		}
+		if w.Op == "MOV" { // moffs forms
+			for k := 0; k < 2; k++ {
+				r, m := w.Ops[k], w.Ops[1-k]
+				if r.Kind == "reg" && m.Kind == "mem" && m.Mem.Base == "" && m.Mem.Index == "" {
+					if rn, _, _ := RegInfo(r.Reg); rn == 0 {
+						op := 0xA0 | wbit
+						if k == 1 {
+							op |= 2
+						}
+						add(append([]byte{byte(op)}, imm(m.Mem.Disp, m.Mem.AddrSize/8)...), m.Mem.AddrSize != mode)
+					}
+				}
+			}
+		}
+	case len(w.Ops) == 1 && w.Ops[0].Kind == "reg" && (w.Op == "PUSH" || w.Op == "POP"):
+		rn, sz, _ := RegInfo(w.Ops[0].Reg)
+		if sz == 8 {
+			return nil
+		}
+		if w.Op == "PUSH" {
+			add([]byte{byte(0x50 | rn)}, false)
+			add([]byte{0xFF, byte(0xC0 | 6<<3 | rn)}, false)
+		} else {
+			add([]byte{byte(0x58 | rn)}, false)
+			add([]byte{0x8F, byte(0xC0 | rn)}, false)
+		}
+	}
+	return out
+}
+
+// MinLen is the length of the shortest valid encoding (0 = not modelled).
+func MinLen(w Want, mode int) int {
+	best := 0
+	for _, e := range Encodings(w, mode) {
+		if best == 0 || len(e) < best {
+			best = len(e)
+		}
+	}
+	return best
+}
+
+// encoderSelfCheck: every encoding the encoder lists for a representative catalogue decodes back
+// to exactly the instruction it was generated from.
+var encoderSelfCheck = func(mode int) (int, string) {
+	n := 0
+	mems := []MemSpec{
+		{Base: "BX", AddrSize: 16}, {Base: "BP", AddrSize: 16}, {Base: "BP", Index: "SI", Scale: 1, Disp: -3, AddrSize: 16}, {Base: "SI", Disp: 0x1234, AddrSize: 16},
+		{Disp: 0x1234, AddrSize: mode, Abs: true},
+		{Base: "EBX", AddrSize: 32}, {Base: "EBP", AddrSize: 32}, {Base: "ESP", Disp: 4, AddrSize: 32}, {Base: "EAX", Index: "ECX", Scale: 4, Disp: 8, AddrSize: 32},
+		{Index: "EDX", Scale: 2, Disp: 0x100, AddrSize: 32}, {Base: "EBP", Index: "EAX", Scale: 1, AddrSize: 32}, {Base: "EAX", Index: "EAX", Scale: 1, AddrSize: 32},
+		{Base: "EDI", Disp: -129, AddrSize: 32},
+	}
+	imms := []int64{0, 1, -1, 127, 128, -128, -129, 255, 256, 0x7fff, 0x8000, -0x8000, 0x12345678}
+	check := func(w Want) string {
+		for _, e := range Encodings(w, mode) {
+			n++
+			if d, got := Compare(e, mode, w); len(d) != 0 {
+				return fmt.Sprintf("mode %d: encoding % X of %+v decodes to %s: %+v", mode, e, w, got, d)
+			}
+		}
+		return ""
+	}
+	for _, size := range []int{8, 16, 32} {
+		regs := map[int][]string{8: Reg8, 16: Reg16, 32: Reg32}[size]
+		for op := range aluIndex {
+			for _, r := range regs {
+				for _, iv := range imms {
+					if bad := check(Want{Op: op, OpSize: size, Ops: []WantOp{{Kind: "reg", Reg: r, Size: size}, {Kind: "imm", Imm: iv, Size: size}}}); bad != "" {
+						return n, bad
+					}
+				}
+			}
+			for _, m := range mems {
+				for _, iv := range imms[:6] {
+					if bad := check(Want{Op: op, OpSize: size, Ops: []WantOp{{Kind: "mem", Mem: m, Size: size}, {Kind: "imm", Imm: iv, Size: size}}}); bad != "" {
+						return n, bad
+					}
+				}
+				if bad := check(Want{Op: op, OpSize: size, Ops: []WantOp{{Kind: "reg", Reg: regs[1], Size: size}, {Kind: "mem", Mem: m, Size: size}}}); bad != "" {
+					return n, bad
+				}
+				if bad := check(Want{Op: op, OpSize: size, Ops: []WantOp{{Kind: "mem", Mem: m, Size: size}, {Kind: "reg", Reg: regs[3], Size: size}}}); bad != "" {
+					return n, bad
+				}
+			}
+		}
+		for _, r := range regs {
+			for _, iv := range imms {
+				if bad := check(Want{Op: "MOV", OpSize: size, Ops: []WantOp{{Kind: "reg", Reg: r, Size: size}, {Kind: "imm", Imm: iv, Size: size}}}); bad != "" {
+					return n, bad
+				}
+			}
+			for _, r2 := range regs {
+				if bad := check(Want{Op: "MOV", OpSize: size, Ops: []WantOp{{Kind: "reg", Reg: r, Size: size}, {Kind: "reg", Reg: r2, Size: size}}}); bad != "" {
+					return n, bad
+				}
+			}
+			if size != 8 {
+				for _, op := range []string{"PUSH", "POP"} {
+					if bad := check(Want{Op: op, OpSize: size, Ops: []WantOp{{Kind: "reg", Reg: r, Size: size}}}); bad != "" {
+						return n, bad
+					}
+				}
+			}
+		}
+		for _, m := range mems {
+			for k := 0; k < 2; k++ {
+				ops := []WantOp{{Kind: "reg", Reg: regs[0], Size: size}, {Kind: "mem", Mem: m, Size: size}}
+				if k == 1 {
+					ops[0], ops[1] = ops[1], ops[0]
+				}
+				if bad := check(Want{Op: "MOV", OpSize: size, Ops: ops}); bad != "" {
+					return n, bad
+				}
+			}
+		}
+	}
+	return n, ""
+}
